@@ -288,6 +288,17 @@ func c06Case(c *core.Ctx, id string) {
 		lv := &pj.Live{}
 		lv.Build(pj.BuildReq{Root: s.Root})
 		for round := 0; round < 2; round++ {
+			if round == 1 {
+				// a same-length edit of one module between two reloads (within the same second, as an editor's save
+				// followed by `dawn watch` is): the reloaded project must be what a fresh load of the tree gives
+				bf := filepath.Join(s.Root, "p0", "BUILD.dawn")
+				if b, err := os.ReadFile(bf); err == nil {
+					os.WriteFile(bf, []byte(strings.Replace(string(b), "default=\"d\"", "default=\"e\"", 1)), 0o644)
+					fresh := pj.Build(pj.BuildReq{Root: s.Root})
+					res.Targets, res.Flags = fresh.Targets, fresh.Flags
+					c.Count("reloads_after_a_same_length_edit", 1)
+				}
+			}
 			pj.ResetTicks(s.Root)
 			r2 := lv.Build(pj.BuildReq{Root: s.Root})
 			t2 := pj.TicksFor(s.Root)
